@@ -59,6 +59,9 @@ Active(ds, i, acc) ==
 
 D(n, b) == [k |-> "define", name |-> n, fn |-> FALSE, params |-> <<>>, body |-> b]
 F(n, ps, b) == [k |-> "define", name |-> n, fn |-> TRUE, params |-> ps, body |-> b]
+\* A -D option is NAME or NAME=VALUE (its text given as tokens <<NAME>> or <<NAME, "=", value tokens...>>): it is split at
+\* the FIRST "=" only, and behaves like "#define NAME VALUE" at the top of the source; VALUE defaults to 1
+DOptDefine(opt) == IF Len(opt) = 1 THEN D(opt[1], <<"1">>) ELSE D(opt[1], SubSeq(opt, 3, Len(opt)))
 ASSUME Expand(<<"N", "+", "N1", "+", "\"N\"">>, Active(<<D("N", <<"5">>)>>, 1, <<>>), 50) = <<"5", "+", "N1", "+", "\"N\"">>
 ASSUME Expand(<<"G", "(", "(", "1", ",", "2", ")", ",", "F", "(", "N", ")", ")">>,
               Active(<<D("N", <<"5">>), F("F", <<"x">>, <<"(", "x", "*", "2", ")">>), F("G", <<"x", "y">>, <<"x", "-", "y">>)>>, 1, <<>>), 50)
